@@ -265,7 +265,13 @@ def check(run, mods, wd, rnd) -> dict:
             continue
         fired = q != p
         hist["fired" if fired else "silent"] += 1
-        cases.append((p, q, src, out, seeded))
+        if re.search(r"\bvar_(9|\d\d+)\b", out):
+            # from var_10 on, the rule's textual `replace("var_1", ...)` also hits var_10..var_19 and the equality check
+            # fails where a renaming of names would pass (the rule skips the node: harmless, but not what the model
+            # does): such programs are only run through the property oracle
+            hist["outside-domain(var_9 and up in the output)"] += 1
+        else:
+            cases.append((p, q, src, out, seeded))
         if fired:
             # property oracle on the real rule's output
             for init in INITS:
@@ -359,7 +365,9 @@ TRUSTED_BASE = [
 ]
 UNMODELLED = [
     "abstractions.simplify_if_control_flow: the textual `str.replace` of the equality check is modelled as a renaming of "
-    "variables (no printed MiniPy name is a substring of another token); names that are not function locals (globals "
+    "variables (no printed MiniPy name is a substring of another token: programs whose output reaches var_9 are only run "
+    "through the property oracle, from var_10 on `replace('var_1', ..)` hits var_1x and the real rule skips nodes the model "
+    "rewrites); names that are not function locals (globals "
     "rebound by a call: F02-82; names bound inside the branch: F01-106; unbound names: F02ctl-1) are outside MiniPy",
     "abstractions.create_abstractions: no model",
 ]
